@@ -57,3 +57,10 @@ Print Assumptions C18_quantile_one_is_max. Print Assumptions C18_mean_between. P
 Example C18_statistics_example : (quantile (1 # 10) [7; 1; 4; 10]%Z <= quantile (1 # 2) [7; 1; 4; 10]%Z)%Q /\ (quantile (9 # 10) [7; 1; 4; 10]%Z == 91 # 10)%Q
   /\ (qmean_of [7; 1; 4; 10] == 11 # 2)%Q /\ (qvar_of [7; 1; 4; 10] == 45 # 4)%Q.
 Proof. vm_compute. repeat split; try reflexivity; discriminate. Qed.
+(* ... unless the reduced series is integer-typed: the members [10; 5; 8; 8] then reduce to 7, not to their mean 31/4 *)
+Theorem C18_integer_series_truncates_the_mean_refuted :
+  ~ (stored_in_integer_series (qmean_of [10; 5; 8; 8]) == qmean_of [10; 5; 8; 8])%Q /\ (stored_in_integer_series (qmean_of [10; 5; 8; 8]) == 7)%Q.
+Proof. exact integer_series_truncates_the_mean. Qed.
+Theorem C18_integer_series_keeps_whole_statistics : forall z, (stored_in_integer_series (inject_Z z) == inject_Z z)%Q.
+Proof. exact integer_series_keeps_whole_statistics. Qed.
+Print Assumptions C18_integer_series_truncates_the_mean_refuted. Print Assumptions C18_integer_series_keeps_whole_statistics.
